@@ -32,6 +32,14 @@ fn spawn_worker(scratch: &str) -> std::io::Result<Worker> {
         .env("XDG_DATA_HOME", format!("{WORLD}/home/.local/share"))
         .env("XDG_CACHE_HOME", format!("{WORLD}/home/.cache"))
         .env("TMPDIR", format!("{WORLD}/tmp"))
+        .env("XDG_RUNTIME_DIR", format!("{WORLD}/run"))
+        .env("XDG_STATE_HOME", format!("{WORLD}/home/.local/state"))
+        .env("USER", "harper")
+        .env("LOGNAME", "harper")
+        .env("LANG", "C.UTF-8")
+        .env("SHELL", "/bin/sh")
+        .env("PATH", "/usr/bin:/bin")
+        .env("RUST_LOG", "info")
         .env("HSIM_WORKER", "1")
         .current_dir(scratch)
         .stdin(Stdio::piped())
